@@ -204,7 +204,7 @@ def main(chk):
                 'xpselect / xpbin PCUBE on windows with bounds inside channels. non-trivial = all')
     chk.assumptions = TRUSTED
     gen = ['energy_to_channel', 'channel_to_energy']
-    chk.lean(['IxpeVerif.Props.C13'], gen)
+    chk.lean(['IxpeVerif.Props.C13', 'IxpeVerif.Props.Audit.C13'], gen)
     corr_gen.run(chk, gen, n=375 if chk.tier == 'quick' else 3000, tag='C13')
     explore(chk)
     return chk.finish(level='proof', trusted=TRUSTED, search=lambda k: explore(chk, 3))
